@@ -1,5 +1,6 @@
 mod alloc;
 mod backend;
+mod mm;
 mod out;
 mod pure;
 mod rng;
@@ -43,6 +44,7 @@ fn main() {
         "pure" => pure::run(&args),
         "table" => table::run(&args),
         "xxh" => xxh::run(&args),
+        "mm" => mm::run(&args),
         other => {
             eprintln!("unknown command {other}");
             std::process::exit(2);
